@@ -202,7 +202,7 @@ impl<L: Language, N: Analysis<L>> EGraph<L, N> {
         let mut i = self.find_applied_id(i_orig);
         // i.m :: slots(i) -> X
         // i_orig.m :: slots(i_orig) -> X
-        if !i.slots().is_subset(&enode.slots()) {
+        while !i.slots().is_subset(&enode.slots()) {
             self.handle_shrink_in_upwards_merge(src_id);
 
             enode = self.find_enode(&enode);
